@@ -12,6 +12,7 @@ search : independent run-length counter on rows / diagonals of
          `recurrence_matrix()`, matrix mode vs sequential mode, scalar measures
 """
 import itertools
+import math
 from fractions import Fraction
 
 import numpy as np
@@ -269,6 +270,7 @@ def run(ctx):
     layouts(ctx, K, rng, nprng, quick)
     objects_round3(ctx, RecurrencePlot, rng, nprng, quick)
     bootstrap(ctx, K, RecurrencePlot, rng, nprng, quick)
+    rounding(ctx, rng, quick)
     doubles(ctx, K, RecurrencePlot, rng, nprng, quick)
     criteria_and_subclasses(ctx, rng, nprng, quick)
     scalar_correspondence(ctx)
@@ -713,11 +715,20 @@ def float_matrix(E, eps):
 def double_embedding(rng, n, dim):
     """doubles whose differences are NOT all representable (exponents far apart), a few infinities
     and NaNs; returns the array and a list of thresholds at / next to its distances"""
-    kind = rng.choice(["gap", "gap", "tenths", "f32gap"])
+    kind = rng.choice(["gap", "gap", "tenths", "f32gap", "subnormal"])
     E = np.zeros((n, dim))
     for a in range(n):
         for l in range(dim):
-            if kind == "tenths":
+            if kind == "subnormal":
+                # round 5: samples / differences in and around the subnormal range (gradual
+                # underflow: the last place is clamped at 2^-1074; a difference of doubles there is
+                # exact -- theorem rnd64_eq_rn53_on_differences)
+                E[a, l] = rng.choice([0.0, 5e-324 * rng.randrange(0, 9), 2.0 ** -1022,
+                                      2.0 ** -1022 + 5e-324 * rng.randrange(0, 5),
+                                      2.0 ** -1021 - 5e-324 * rng.randrange(0, 3),
+                                      -5e-324 * rng.randrange(0, 4), 2.0 ** -1060 * rng.randrange(0, 4),
+                                      1.5 * 2.0 ** -1000])
+            elif kind == "tenths":
                 E[a, l] = rng.randrange(0, 12) / 10
             elif kind == "f32gap":
                 base = rng.choice([0.0, 1.0, 3.0, 0.5])
@@ -744,11 +755,76 @@ def double_embedding(rng, n, dim):
                 x, y = rng.choice(col), rng.choice(col)
                 d = abs(x - y)          # the rounded distance: a threshold exactly there is the
                 near += [d, d, float(np.nextafter(d, np.inf))]     # case rounding can decide
+    if kind == "subnormal":
+        cands = [5e-324, 1e-323, 2.0 ** -1022, 2.0 ** -1060, 2.0 ** -1000, 0.0, -5e-324, np.inf, 1.0]
     if near and rng.random() < 0.5:
         cands = near
     if rng.random() < 0.05:
         cands = [float("nan")]
     return E, kind, special, float(rng.choice(cands))
+
+
+def rounding(ctx, rng, quick):
+    """round 5: the rounding `rnd64` of the model itself against IEEE binary64 as this machine
+    executes it: (a) `abs(a - b)` of two doubles (numpy float64 subtraction), (b) the correctly
+    rounded conversion of an arbitrary rational (`float(Fraction)`: CPython's correctly rounded
+    true division, gradual underflow included): ties, exponent boundaries, subnormals."""
+    reqs, impl = [], []
+    specials = [0.0, 5e-324, 1e-323, 2.0 ** -1074 * (2 ** 52 - 1), 2.0 ** -1022, 2.0 ** -1021,
+                1.0, float(np.nextafter(1.0, 0)), float(np.nextafter(1.0, 2)), 0.1, 0.3, 1e300, 2.0 ** 1000,
+                2.0 ** 53, 2.0 ** 53 + 2, 3.0, 1e-310, 4.9e-320]
+
+    def rand_double():
+        r = rng.random()
+        if r < 0.3:
+            return rng.choice(specials) * rng.choice([1, 1, -1])
+        if r < 0.6:
+            return math.ldexp(rng.randrange(0, 2 ** 53), rng.randrange(-1074, -1000)) * rng.choice([1, -1])
+        if r < 0.8:
+            return math.ldexp(rng.randrange(0, 2 ** 53), rng.randrange(-120, 60)) * rng.choice([1, -1])
+        return rng.uniform(-4, 4)
+
+    for c in range(60 if quick else 600):
+        prs, exp = [], []
+        for _ in range(8):
+            if rng.random() < 0.55:
+                a, b = rand_double(), rand_double()
+                if rng.random() < 0.3:
+                    b = a + math.ldexp(rng.randrange(-3, 4), rng.randrange(-1074, -1040))
+                with np.errstate(over="ignore"):
+                    d = abs(float(np.float64(a) - np.float64(b)))
+                if not math.isfinite(d):
+                    continue
+                prs.append(f"{enc_q(frac(a))},{enc_q(frac(b))}")
+                exp.append(enc_q(frac(d)))
+                ctx.count("rounding:difference-of-doubles" +
+                          (":subnormal" if 0 < d < 2.0 ** -1022 else ""))
+            else:
+                # an arbitrary rational: ties (odd multiples of half an ulp), near powers of two,
+                # non-dyadic, subnormal
+                k = rng.choice(["tie", "tie-subnormal", "thirds", "boundary", "tiny"])
+                if k == "tie":
+                    q = Fraction(2 * rng.randrange(2 ** 52, 2 ** 53) + 1, 2) * Fraction(2) ** rng.randrange(-1070, 900)
+                elif k == "tie-subnormal":
+                    q = Fraction(2 * rng.randrange(0, 2 ** 20) + 1, 2) * Fraction(1, 2 ** 1074)
+                elif k == "thirds":
+                    q = Fraction(rng.randrange(1, 10 ** 6), 3 * rng.randrange(1, 10 ** 6)) * Fraction(2) ** rng.randrange(-1090, 60)
+                elif k == "boundary":
+                    q = Fraction(2) ** rng.randrange(-1076, 60) * (1 + Fraction(rng.randrange(-3, 4), 2 ** rng.choice([53, 54, 55, 60])))
+                else:
+                    q = Fraction(rng.randrange(0, 40), rng.randrange(1, 9)) * Fraction(1, 2 ** 1075)
+                if q < 0 or q >= Fraction(2) ** 1023:
+                    continue
+                prs.append(f"0,{enc_q(q)}")
+                exp.append(enc_q(Fraction(float(q))))
+                ctx.count(f"rounding:rational={k}")
+        if not prs:
+            continue
+        reqs.append("rnd64 " + ";".join(prs))
+        impl.append(",".join(exp))
+        ctx.case(("rnd64", ";".join(prs)), True, {"rnd64": prs[:2]} if c < 3 else None)
+    ctx.correspond("model rnd64 (round-to-nearest-even, 53 bits, gradual underflow) == IEEE binary64 of "
+                   "this machine: |a - b| of doubles and correctly rounded rationals", reqs, impl)
 
 
 def doubles(ctx, K, RecurrencePlot, rng, nprng, quick):
